@@ -4,11 +4,11 @@ package main
 // symbolic arguments) and the branch facts that hold when they execute.
 
 import (
+	"os"
 	"fmt"
 	"go/constant"
 	"go/token"
 	"go/types"
-	"os"
 	"sort"
 	"strings"
 
@@ -756,7 +756,24 @@ func (w *Walker) nilErrPhiFacts(fr *Frame, phi *ssa.Phi, depth, rec int) []FactT
 }
 
 func (w *Walker) blockFacts(fr *Frame, b *ssa.BasicBlock, depth int) []FactT {
-	return withEquivalents(w.blockFacts0(fr, b, depth))
+	fs := w.blockFacts0(fr, b, depth)
+	// after the hit/miss arms of a local memo table have joined: what held where the value
+	// was put into the table holds for the value taken out of it (memo.go)
+	if depth == 0 {
+		for _, ub := range w.cx.memoJoinBlocks(b) {
+			if os.Getenv("DEBUG_MEMO") != "" {
+				for _, ft := range w.blockFacts0(fr, ub, depth+1) {
+					fmt.Fprintf(os.Stderr, "  lifted b%d: %s\n", ub.Index, trunc(ft.String(), 200))
+				}
+			}
+			for _, ft := range w.blockFacts0(fr, ub, depth+1) {
+				if !strings.Contains(ft.Text, "new:map[") {
+					fs = append(fs, ft)
+				}
+			}
+		}
+	}
+	return withEquivalents(fs)
 }
 
 // splitTop splits s at top-level occurrences of sep (outside parentheses,
